@@ -18,8 +18,10 @@ import (
 	"net"
 	"os"
 	"path/filepath"
+	"runtime"
 	"strings"
 	"sync"
+	"syscall"
 	"time"
 
 	"github.com/mimoo/disco/libdisco"
@@ -56,6 +58,9 @@ type Job struct {
 	Spell    string          `json:"spell,omitempty"`    // the data directory as handed to WithDataDir / -d (default: DataDir)
 	Cwd      string          `json:"cwd,omitempty"`      // working directory of the start
 	Hold     bool            `json:"hold,omitempty"`     // stay alive (holding the store) after the observation is written
+	// KillItems n > 0: a goroutine of this child watches the store and kills the process (SIGKILL) as soon as n of the
+	// identity items the configured instances create are stored
+	KillItems int `json:"kill_items,omitempty"`
 }
 
 // ItemObs describes one persisted kv item after the start.
@@ -611,6 +616,98 @@ func dumpKV() map[string]ItemObs {
 	return out
 }
 
+// itemsOf: the identity items the given service instances (and the agent listener) create, in kvItems order.
+func itemsOf(svcs []string) []int {
+	ns := map[string]bool{}
+	for _, s := range svcs {
+		if s == "agent" {
+			ns["agent"] = true
+		} else if d, ok := svcDefs[s]; ok {
+			ns[d.Probe] = true
+		}
+	}
+	var out []int
+	for i, it := range kvItems {
+		if ns[it.NS] {
+			out = append(out, i)
+		}
+	}
+	return out
+}
+
+// watchItems: a crash point at storage granularity without any hook in the server.  Polls the store the server
+// writes to - read-only View transactions through storage.Namespace(..).Get (the process's one DB handle) - for how
+// many of the identity items are stored, and kills the process (SIGKILL) the moment that number reaches n.
+// Two back-to-back Sets are only microseconds apart once the first is visible to a View, but every Set is one
+// synchronous write (O_DSYNC) to badger's value log that takes hundreds of microseconds: on a fresh directory the
+// watcher therefore also counts how often the value log has grown (one write per Set transaction; a record that is
+// in the file is replayed by the next Open) and kills as soon as the n-th record is there - while the Set is still
+// waiting for the disk.  What the kill really left is read back by the dump child.  The loop does not sleep once
+// the store is open; before that it sleeps 50 us.
+func watchItems(n int, svcs []string, dataDir string) {
+	runtime.LockOSThread()
+	die := func() {
+		syscall.Kill(os.Getpid(), syscall.SIGKILL)
+		select {}
+	}
+	// 0 absent, 1 present, -1 the store is not open yet (storage.Namespace hands out a nil handle: Get panics)
+	probe := func(i int) (st int) {
+		defer func() {
+			if recover() != nil {
+				st = -1
+			}
+		}()
+		ns, err := storage.Namespace(kvItems[i].NS)
+		if err != nil {
+			return -1
+		}
+		if _, err = ns.Get(kvItems[i].Key); err != nil {
+			return 0
+		}
+		return 1
+	}
+	vlog := filepath.Join(dataDir, "badger.db", "000000.vlog")
+	var st syscall.Stat_t
+	fresh := syscall.Stat(vlog, &st) != nil // no value log yet: every record it gets is a Set of this start
+	var size int64
+	todo := itemsOf(svcs)
+	count, records := 0, 0
+	for {
+		if fresh && syscall.Stat(vlog, &st) == nil && st.Size > size {
+			// while a write is copied in the size moves on page by page: a size on a page boundary is taken for a
+			// record in the making until it has moved on (or has not for 500 us)
+			size = st.Size
+			for t := time.Now(); size%4096 == 0 && time.Since(t) < 500*time.Microsecond; {
+				if syscall.Stat(vlog, &st) == nil && st.Size != size {
+					size, t = st.Size, time.Now()
+				}
+			}
+			if records++; records >= n {
+				die()
+			}
+		}
+		open := true
+		for k := 0; k < len(todo) && open; k++ {
+			switch probe(todo[k]) {
+			case 1:
+				if count++; count >= n {
+					die()
+				}
+				todo = append(todo[:k], todo[k+1:]...)
+				k--
+			case -1:
+				open = false
+			}
+		}
+		if len(todo) == 0 {
+			return
+		}
+		if !open {
+			time.Sleep(50 * time.Microsecond)
+		}
+	}
+}
+
 func readOpt(p string) *hx.B {
 	b, err := os.ReadFile(p)
 	if err != nil {
@@ -689,6 +786,9 @@ func childMain(jobPath string) {
 	}
 	if job.Ready != "" {
 		os.WriteFile(job.Ready, []byte("x"), 0o644)
+	}
+	if job.KillItems > 0 {
+		go watchItems(job.KillItems, job.Services, job.DataDir)
 	}
 	if job.Cwd != "" {
 		if err := os.Chdir(job.Cwd); err != nil {
